@@ -77,8 +77,9 @@ pub fn case(ctx: &Ctx, shard: usize, index: u64, rep: &mut Report) {
     let all: Vec<u8> = pics.iter().flat_map(|p| p.0.iter().copied()).collect();
     let kinds: String = pics.iter().map(|p| p.2).collect();
     let describe = || format!("{} sequence {} sizes up to {}x{}, {} bytes: {}", flavour.name(), kinds, w, h, all.len(), hex(&all[..all.len().min(40)]));
-    let mut shared = Dec::new(sorenson, false);
-    let mut twin = Dec::new(sorenson, false);
+    let scal = sorenson && rng.chance(1, 4);
+    let mut shared = Dec::new(sorenson, scal);
+    let mut twin = Dec::new(sorenson, scal);
     twin.chunk = *rng.pick(&[usize::MAX, usize::MAX, 1, 5, 300]);
     let (src, _data, delivered) = CountRead::new(&all);
     // the source hands out at most `chunk` bytes per read call
